@@ -21,6 +21,7 @@ import YashModel.Pipe.FdLemmas
 import YashModel.Pipe.FileLemmas
 import YashModel.Pipe.TwoWritersLemmas
 import YashModel.Pipe.WakeLemmas
+import YashModel.Pipe.ChainLemmas
 namespace YashModel.Pipe
 
 variable {α : Type}
@@ -43,6 +44,17 @@ theorem real_fd_consts :
     Generated.PipeConsts.STDIN = 0 ∧ Generated.PipeConsts.STDOUT = 1 ∧ Generated.PipeConsts.STDERR = 2 ∧
     Generated.PipeConsts.MIN_INTERNAL_FD = 10 ∧ Generated.PipeConsts.SUBST_TRIM_CHAR = 10 ∧
     Generated.PipeConsts.READ_ALL_RESERVE = 1024 := by decide
+
+/-- The standard descriptors that `subshell_body` and `PipeSet::move_to_stdin_stdout` name in their guards,
+    `dup2` targets and the `dup(STDOUT, Fd(0))` of the special case, as extracted from the two functions on this
+    run, are the literals `1` / `0` that `substChild`, `PipeSet.connectStdout`, `connectStdin` (Fds.lean) and the
+    driver's `minUnused 64 0` hard-code (decide over the generated table). -/
+theorem real_fd_targets :
+    Generated.PipeConsts.SUBST_GUARD_FD = 1 ∧ Generated.PipeConsts.SUBST_DUP2_TARGET = 1 ∧
+    Generated.PipeConsts.MOVE_WRITER_GUARD_FD = 1 ∧ Generated.PipeConsts.MOVE_SPECIAL_FD = 1 ∧
+    Generated.PipeConsts.MOVE_DUP_SOURCE = 1 ∧ Generated.PipeConsts.MOVE_DUP_MIN = 0 ∧
+    Generated.PipeConsts.MOVE_WRITER_TARGET = 1 ∧ Generated.PipeConsts.MOVE_READER_GUARD_FD = 0 ∧
+    Generated.PipeConsts.MOVE_READER_TARGET = 0 := by decide
 
 /-- ★ Conservation: in every reachable state — every payload, every capacity with
     `1 ≤ PIPE_BUF ≤ PIPE_SIZE`, every request/buffer size ≥ 1, every interleaving —
@@ -866,5 +878,148 @@ example : wtransfer Cfg.real 7 513 3 (List.range 3000) = some (List.range 3000) 
   wtransfer_delivers Cfg.real real_valid 7 513 3 _
 
 example : wtransfer { pipeSize := 8, pipeBuf := 4 } 5 0 3 (List.range 20) = some (List.range 20) := by decide
+
+/-! ### a concurrent pipeline of any number of stages (Chain.lean) -/
+
+/-- ★ Conservation for `source | m × cat | sink`, every process scheduled independently: in every reachable
+    state — any number `m` of forwarding stages, any interleaving of the `m + 2` processes, any read buffer and
+    write request ≥ 1 byte at every step — the bytes the sink holds, followed stage by stage (from the sink
+    backwards) by what is buffered in a pipe and what a stage holds between its `read` and its `write_all`, are
+    exactly the payload: nothing lost, duplicated or reordered anywhere in the pipeline.  In particular the sink
+    always holds a prefix of the payload. -/
+theorem chain_conservation (c : Cfg) (m : Nat) (pre post : List α) (s : Chain α)
+    (hr : CReach c m pre post s) :
+    s.total = pre ++ post ∧ ∃ rest, s.received ++ rest = pre ++ post := by
+  have ⟨_, _, ht, _⟩ := hr.inv
+  refine ⟨ht, ?_⟩
+  rw [← ht]
+  have aux : ∀ t : Chain α, ∃ rest, t.received ++ rest = t.total := by
+    intro t
+    induction t with
+    | sink inp r pc => exact ⟨inp.content, by simp [Chain.total, Chain.received]⟩
+    | fwd inp hold pc rest ih =>
+      obtain ⟨x, hx⟩ := ih
+      exact ⟨x ++ hold ++ inp.content, by simp [Chain.total, Chain.received, ← hx]⟩
+  exact aux s
+
+/-- ★ No deadlock in a pipeline of any length: every reachable state in which some process has not finished
+    has a process that can step — whatever buffer and request sizes it is offered.  (Induction from the sink
+    backwards: the rightmost blocked reader waits on an empty pipe whose writer is alive; that writer is running,
+    or waits for a pipe that is empty and therefore ready for writing, or is itself a blocked reader further
+    left; the source's input has no writer, so the recursion ends.)  Needs `PIPE_BUF ≤ PIPE_SIZE`. -/
+theorem chain_no_deadlock (c : Cfg) (hv : c.Valid) (m : Nat) (pre post : List α) (s : Chain α)
+    (hr : CReach c m pre post s) (hnf : s.allDone = false) :
+    ∃ i, i < m + 2 ∧ ∀ n k, (s.step c i n k).isSome = true := by
+  have ⟨hi, hw, _, hp⟩ := hr.inv
+  rcases Chain.progress c hv s hi with h | ⟨i, hil, hs⟩ | ⟨_, h, _⟩
+  · rw [h] at hnf; exact absurd hnf (by simp)
+  · exact ⟨i, by omega, hs⟩
+  · omega
+
+/-- ★ No stage ever meets EPIPE and a schedule can only stop in the final state, where the sink holds exactly
+    the payload: a reachable state without an enabled step has every process finished normally, every pipe
+    drained and `received = payload`. -/
+theorem chain_complete (c : Cfg) (hv : c.Valid) (m : Nat) (pre post : List α) (s : Chain α)
+    (hr : CReach c m pre post s) (hstuck : ∀ i n k, 1 ≤ n → 1 ≤ k → s.step c i n k = none) :
+    s.allDone = true ∧ s.received = pre ++ post := by
+  have ⟨hi, _, ht, _⟩ := hr.inv
+  have hd : s.allDone = true := by
+    cases h : s.allDone with
+    | true => rfl
+    | false =>
+      obtain ⟨i, _, hs⟩ := chain_no_deadlock c hv m pre post s hr h
+      have := hs 1 1
+      rw [hstuck i 1 1 (Nat.le_refl _) (Nat.le_refl _)] at this
+      exact absurd this (by simp)
+  exact ⟨hd, by rw [← Chain.allDone_total hi hd, ht]⟩
+
+/-- whenever every process of a reachable state has finished the sink holds exactly the payload -/
+theorem chain_done_complete (c : Cfg) (m : Nat) (pre post : List α) (s : Chain α)
+    (hr : CReach c m pre post s) (hd : s.allDone = true) : s.received = pre ++ post := by
+  have ⟨hi, _, ht, _⟩ := hr.inv
+  rw [← Chain.allDone_total hi hd, ht]
+
+/-- In every reachable state of a pipeline of any length no stage has met EPIPE (every reader reads to end of
+    file, so a stage's downstream neighbour outlives it). -/
+theorem chain_no_epipe (c : Cfg) (m : Nat) (pre post : List α) (s : Chain α)
+    (hr : CReach c m pre post s) : s.noFail = true :=
+  hr.inv.1.no_fail
+
+/-- Capacity in a pipeline of any length: in every reachable state every pipe between two processes holds at most
+    `PIPE_SIZE` bytes (a `write` never appends more than the room it found, whatever the other stages do). -/
+theorem chain_capacity (c : Cfg) (m : Nat) (pre post : List α) (s : Chain α)
+    (hr : CReach c m pre post s) : s.CapTail c :=
+  hr.cap
+
+/-- ★ The two models are one: every reachable state of the writer ∥ reader system of Model.lean (`Reach`, the
+    subject of `pipe_conservation` … `pipe_complete`) is, through `Sys.embed` (writer = source whose input has no
+    writer, reader = sink, same pipe), a reachable state of the chain with no forwarding stage — one writer step is
+    one or two source steps, one reader step is one sink step — with the same received data and the same bytes in
+    the same order.  So the chain theorems specialise to the two-process system, and the chain with `m ≥ 1` is
+    its generalisation to a pipeline of `m + 2` concurrent processes. -/
+theorem chain_generalises_pipe (c : Cfg) (payload : List α) (s : Sys α) (hr : Reach c payload s) :
+    CReach c 0 payload [] s.embed ∧ s.embed.received = s.received ∧
+      s.embed.total = s.received ++ s.pipe.content ++ s.unsent :=
+  ⟨reach_embed hr, rfl, by simp [Sys.embed, Chain.total]⟩
+
+/-- What the driver computes for `xfer … mid=M` (`chainTransfer`: the seeded executor over the `M + 2` processes)
+    can only be the payload.  Full statement `chainTransfer c seed m wk rk x = some x` needs a termination
+    measure for the chain (every step lowers a position-weighted byte count), which is not proved: what is
+    missing is that the fuel `(m + 2)·(12·|x| + 200)` suffices; a run that exhausted it would print `stuck`
+    and disagree with the implementation. -/
+theorem chain_transfer_delivers_partial (c : Cfg) (seed m wk rk : Nat) (x y : List α)
+    (h : chainTransfer c seed m wk rk x = some y) : y = x := by
+  have hn1 : 1 ≤ (if rk = 0 then 1024 else rk) := by split <;> omega
+  have hk1 : 1 ≤ (if wk = 0 then x.length + 1 else wk) := by split <;> omega
+  have hr := chainRun_reach (c := c) (m := m) (pre := x) (post := []) hn1 hk1
+    ((m + 2) * (12 * x.length + 200)) seed _ CReach.init
+  unfold chainTransfer at h
+  generalize (if rk = 0 then 1024 else rk) = n at h hr
+  generalize (if wk = 0 then x.length + 1 else wk) = k at h hr
+  simp only at h
+  split at h
+  next hd =>
+    simp only [Option.some.injEq] at h
+    subst h
+    simpa using chain_done_complete c m x [] _ hr hd
+  next => simp at h
+
+/-- the two-process chain is the writer ∥ reader system of Model.lean seen from outside: same pipe operations,
+    and its first reachable states evaluated (PIPE_SIZE 8, PIPE_BUF 4, one `cat` in the middle): the source's
+    partial write fills pipe 1, `cat` takes 5 bytes and writes them on, the sink takes 2 -/
+example :
+    let c : Cfg := { pipeSize := 8, pipeBuf := 4 }
+    let s0 : Chain Nat := Chain.init 1 (List.range 20) []
+    let s := [(0, 1, 20), (1, 5, 20), (1, 5, 20), (2, 2, 20)].foldl
+      (fun s (a : Nat × Nat × Nat) => (s.step c a.1 a.2.1 a.2.2).getD s) s0
+    s.received = [0, 1] ∧ s.total = List.range 20 ∧ s.allDone = false := by
+  decide
+
+/-- `chain_generalises_pipe` on a concrete reachable state of the two-process system (3000 bytes at the real
+    capacity: a partial write, a read of 700, another write) -/
+example : CReach Cfg.real 0 (List.replicate 3000 'x') []
+    ((Sys.init (List.replicate 3000 'x')).run Cfg.real [.w 3000, .r 700, .w 5000]).embed :=
+  (chain_generalises_pipe _ _ _ (reach_run Reach.init _ (by decide))).1
+
+/-- hypotheses of `chain_no_deadlock` met at the real capacity by a reachable non-final state (3000 bytes, two
+    forwarding stages) -/
+example : ∃ s : Chain Nat, CReach Cfg.real 2 (List.range 3000) [] s ∧ s.allDone = false :=
+  ⟨_, CReach.init, by simp [Chain.init, Chain.allDone]⟩
+
+/-- `PIPE_BUF ≤ PIPE_SIZE` is necessary for `chain_no_deadlock` too (PIPE_BUF 5 > PIPE_SIZE 2): the source
+    waits for room for an atomic 3-byte write that an empty pipe of 2 bytes never has, `cat` and the sink wait
+    for data -/
+example :
+    let c : Cfg := { pipeSize := 2, pipeBuf := 5 }
+    let s0 : Chain Nat := Chain.init 1 [1, 2, 3] []
+    let s := [(0, 1, 3), (1, 1, 3), (2, 1, 3), (0, 1, 3), (1, 1, 3), (2, 1, 3)].foldl
+      (fun s (a : Nat × Nat × Nat) => (s.step c a.1 a.2.1 a.2.2).getD s) s0
+    s.allDone = false ∧ s.step c 0 1 3 = none ∧ s.step c 1 1 3 = none ∧ s.step c 2 1 3 = none := by
+  decide
+
+/-- the executor, evaluated: three forwarding stages (a 5-stage pipeline), 40 bytes through 8-byte pipes,
+    read buffers of 3 bytes -/
+example : chainTransfer { pipeSize := 8, pipeBuf := 4 } 5 3 0 3 (List.range 40) = some (List.range 40) := by
+  decide
 
 end YashModel.Pipe
